@@ -19,7 +19,7 @@ def precond(model, op):
     if k == "new_space":
         return S(op.get("parent") or "") and all(S(b) for b in op.get("bases") or []) and \
             (op.get("formula") is None or _sf_ok(model, op["formula"]))
-    if k in ("del_space", "rename_space", "set_sformula", "del_sformula", "space_clear_all",
+    if k in ("del_space", "rename_space", "copy_space", "set_sformula", "del_sformula", "space_clear_all",
              "space_clear_cells", "clear_items"):
         return bool(op["space"]) and S(op["space"]) and (k != "set_sformula" or _sf_ok(model, op["formula"]))
     if k in ("add_bases", "remove_bases"):
